@@ -294,16 +294,21 @@ def find_collisions(b, root, n):
         len(db["wrappers"])
 
 
-def collision_case(b, root, fns, opt, tag):
-    """Reduced library: exactly the colliding functions, in the given order."""
+def collision_case(b, root, fns, opt, tag, header=None):
+    """Reduced library: exactly the colliding functions, in the given order (or the given
+    header text of a constructed group)."""
     d = os.path.join(root, tag)
     os.makedirs(d, exist_ok=True)
     body = ["__begin_publish"] + ["inline int %s(int a) { return a; }" % f for f in fns] + ["__end_publish"]
     with open(os.path.join(d, "h.h"), "w") as f:
-        f.write("\n".join(body) + "\n")
+        f.write(header if header is not None else "\n".join(body) + "\n")
     args = ["-oc", "x.cxx", "-od", "x.in", "-module", "m", "-library", "l"] + opt.argv() + ["h.h"]
     r = tools.interrogate(b, args, cwd=d)
-    res = {"opt": opt.key, "fns": list(fns), "cmd": " ".join(r.cmd), "status": "ok", "sig": ""}
+    res = {"opt": opt.key, "fns": list(fns), "cmd": " ".join(r.cmd), "status": "ok", "sig": "",
+           "header": header}
+    if r.rc is None or r.rc < 0:
+        res.update(status="crash", sig="interrogate %s" % ("timeout" if r.timeout else "signal %s" % r.rc))
+        return res
     if r.rc != 0:
         res.update(status="noexit0", sig="interrogate exit %s" % r.rc, stderr=r.err[-500:])
         return res
@@ -620,14 +625,56 @@ def main():
                     sample={"functions": perm, "options": o.argv(), "names": res.get("names")})
             if res["status"] not in ("ok",):
                 cfail.setdefault((o.backend, res["status"], res["sig"]), []).append((key, perm, o, res))
+        # constructed groups of k = 2..5 colliding signatures (vf/lib_c03.collision_groups), every
+        # declaration order, both hash-using back-ends x {-fnames, -unique-names, -fptrs}
+        cgroups = []
+        for g in L.collision_groups():
+            probe = collision_case(b, root, [], L.Opt("c", "fnames"), "cg-probe-" + g.name, header=g.header())
+            names = probe.get("names") or []
+            # the group's own wrappers are the ones sharing the first four hash characters with
+            # at least len(members) - 1 others; the tool confirms the construction
+            by4 = {}
+            for n in names:
+                by4.setdefault(n[4 + 4:4 + 8], []).append(n)
+            big = max((len(v) for v in by4.values()), default=0)
+            if probe["status"] == "noexit0" or big < len(g.members):
+                ck.cap("constructed group %s is not a %d-way collision for this tool (largest: %d)"
+                       % (g.name, len(g.members), big))
+                continue
+            cgroups.append(g)
+        ck.extra["constructed_groups"] = {g.name: {"form": g.form, "size": len(g.members),
+                                                   "signatures": [m[1] for m in g.members],
+                                                   "predicted_hashes": g.predicted()} for g in cgroups}
+        gopts = [L.Opt(be, nm, fl) for be in ("c", "python")
+                 for nm, fl in (("fnames", ()), ("none", ("unique-names",)), ("fptrs", ()))]
+        gj = [(g, k, order, o) for g in cgroups for k, order in L.group_orders(g) for o in gopts]
+
+        def rung(j):
+            g, k, order, o = j
+            tag = "cg-%s-%s-%s" % (g.name, "".join(map(str, order)), o.key.replace("+", "_"))
+            return j, collision_case(b, root, [g.members[i][0] for i in order], o, tag, header=g.header(order))
+        for i in range(0, len(gj), 256):
+            if ck.expired(reserve=60):
+                ck.cap("deadline: constructed collision groups stopped after %d of %d cases" % (i, len(gj)))
+                break
+            for (g, k, order, o), res in pmap(rung, gj[i:i + 256]):
+                key = "group|%s|%s|%s" % (g.name, "".join(map(str, order)), o.key)
+                ck.note(key, nontrivial=res.get("same4", 0) >= k - 1, family="constructed-collisions",
+                        outcome="group%d:%s:%s" % (k, res["status"], o.backend),
+                        sample={"group": g.name, "order": list(order), "options": o.argv(),
+                                "names": res.get("names")})
+                if res["status"] != "ok":
+                    cfail.setdefault((o.backend, res["status"], res["sig"]), []).append(
+                        (key, [g.members[i][0] for i in order], o, res))
+
         for (be, st, sig), members in sorted(cfail.items()):
             key, perm, o, res = sorted(members, key=lambda m: (m[2].deviations(), m[2].key, m[0]))[0]
             ck.fail(key, "hash collision %s: %s [smallest of %d colliding-library case(s) of back-end -%s with "
                          "this observation]" % (st, sig, len(members), be),
                     {"observed": sig, "kind": "collision", "fns": list(perm), "opt": o.key,
                      "result": res, "same_observation_cases": sorted(m[0] for m in members)[:300]},
-                    confirm=lambda perm=perm, o=o, st=st:
-                    collision_case(b, root, perm, o, "hc-confirm")["status"] == st)
+                    confirm=lambda perm=perm, o=o, st=st, hdr=res.get("header"):
+                    collision_case(b, root, perm, o, "hc-confirm", header=hdr)["status"] == st)
 
         # two libraries of one module whose *names* hash alike, each with one member of a
         # colliding signature pair: both wrappers would get the same symbol and unique name
@@ -646,6 +693,10 @@ def main():
                 tag = "xl-%s-%s-%s" % (libs[0][1][0], libs[1][1][0], o.key.replace("+", "_"))
                 return j, crosslib_case(b, root, libs, o, tag)
             xfail = {}
+            for g in cgroups:
+                if g.form.startswith("free functions") and not g.eqsec:
+                    for o in (L.Opt("c", "fnames"), L.Opt("python", "fnames")):
+                        xj.append(([(la, [g.members[0][0]]), (lb, [g.members[1][0], g.members[2][0]])], o))
             for (libs, o), res in pmap(runx, xj):
                 key = "crosslib|%s|%s" % (",".join("%s:%s" % (l, f[0]) for l, f in libs), o.key)
                 ck.note(key, nontrivial=bool(res.get("same_libhash")), family="collisions-across-libraries",
@@ -654,7 +705,8 @@ def main():
                 if res["status"] != "ok":
                     xfail.setdefault((o.backend, res["status"], res["sig"]), []).append((key, libs, o, res))
             for (be, st, sig), members in sorted(xfail.items()):
-                key, libs, o, res = sorted(members, key=lambda m: m[0])[0]
+                # harvested pairs (hc_*) rank before constructed groups, so the reported key is stable
+                key, libs, o, res = sorted(members, key=lambda m: ("hc_" not in m[0], m[0]))[0]
                 ck.fail(key, "colliding library-name and signature hashes: %s: %s [smallest of %d case(s)]"
                         % (st, sig, len(members)),
                         {"observed": sig, "kind": "crosslib", "libs": libs, "opt": o.key, "result": res,
@@ -734,7 +786,7 @@ def replay(ck, b):
     if d["kind"] == "lattice":
         res = evaluate(b, root, d["atoms"], o, "replay", mode_for(o))
     elif d["kind"] == "collision":
-        res = collision_case(b, root, d["fns"], o, "replay")
+        res = collision_case(b, root, d["fns"], o, "replay", header=(d.get("result") or {}).get("header"))
     elif d["kind"] == "crosslib":
         res = crosslib_case(b, root, [(l, f) for l, f in d["libs"]], o, "replay")
     else:
